@@ -296,6 +296,7 @@ Proof. intros Hc Hk I Hnone. destruct I as [i_nd0 i_lt0 i_plt0 i_static0 i_dyn0 
         unfold nb, barrier_bin. simpl. apply Forall_forall. intros s Hsl.
         apply in_map_iff in Hsl as (q & <- & Hq). unfold slot_ok. simpl.
         assert (Mq : memb q (oloc o) = true) by (apply memb_In; auto).
+        split; [exists (cur, o); split; [apply in_or_app; right; left; reflexivity| split; [exact Mq| reflexivity]]|].
         assert (Hpre0 : forall P, fq q (fun cy => (cur <=? cy) && P cy)%Z pre = []).
         { intros P. apply fq_none. intros x Hx Tx. specialize (Hp q Hq x Hx Tx).
           apply andb_false_iff. left. apply Z.leb_gt. exact Hp. }
